@@ -338,6 +338,36 @@ def exact_keys(model, rep):
     rep.decide(hit, 'C07.exact-key', 'self-test', 'the exact-key rule does not fire on its built-in positive example')
 
 
+def hash_keys(model, rep):
+    """quantities compare equal across units and within a tolerance, so no hash of their value in some unit (nor of the
+    unit's name) is consistent with that equality: a set / dict keyed by quantities would file 20 deg and its value in
+    rad under different keys.  The classes define __eq__ and no __hash__, which makes them unhashable - the structural
+    guarantee that no table is keyed that way; a __hash__ that reads value or unit removes it."""
+    kinds = sorted(set(model.quantity_kinds()) | {'UnitBase'})
+    n = 0
+    for k in kinds:
+        ci = model.classes.get(k)
+        if ci is None:
+            continue
+        h = ci.members.get('__hash__')
+        assigned = ci.class_attrs.get('__hash__')
+        eq = model.find_member(k, '__eq__')
+        n += 1
+        if h is not None:
+            reads = sorted({a.attr for a in ast.walk(h.node) if isinstance(a, ast.Attribute) and a.attr.lstrip('_').split('__')[-1] in ('value', 'unit')})
+            if reads:
+                rep.violation('C07.hash-key', f'{k}.__hash__', f'hashes {reads}: two quantities that compare equal (same magnitude in another unit, or '
+                              f'within the comparison tolerance) hash differently, so a dict / set keyed by quantities misses valid keys',
+                              f'{h.module}:{h.node.lineno}')
+                continue
+        if assigned is not None and not (isinstance(assigned, ast.Constant) and assigned.value is None):
+            rep.violation('C07.hash-key', f'{k}.__hash__', f'`__hash__ = {ast.unparse(assigned)[:40]}` makes quantities hashable by something other '
+                          f'than their unit-blind magnitude', f'{ci.module}:{assigned.lineno}')
+            continue
+        rep.holds('C07.hash-key', f'{k}.__hash__', 'no value- or unit-based hash' + ('' if h is not None or eq is None else ' (unhashable: __eq__ without __hash__)'))
+    rep.require('C07.hash-key', 14, 'UnitBase and the 13 kinds')
+
+
 def coverage(model, rep, covered, notrun):
     total = 0
     uncovered = []
@@ -385,6 +415,7 @@ def check(model, rep):
     except CannotDecide as e:
         rep.cannot('C07.raw', 'Solver.run', str(e))
     exact_keys(model, rep)
+    hash_keys(model, rep)
     coverage(model, rep, covered, notrun)
     from checks.c05 import check_tables, check_to
     from sa.units import UnitTables
